@@ -139,7 +139,7 @@ P["C12"] = {
              ]}
 
 TB_SETS = {
-    "memo": ["b_basic", "b_toplevel", "b_slice_sel", "b_slice", "b_map", "b_nested", "b_short", "b_shared", "b_forget", "b_ptrswap", "b_forgetcall", "b_chain", "b_failshared"],
+    "memo": ["b_basic", "b_toplevel", "b_slice_sel", "b_slice", "b_map", "b_nested", "b_short", "b_shared", "b_forget", "b_ptrswap", "b_forgetcall", "b_chain", "b_failshared", "b_elemfield"],
     "control": ["b_retract", "b_fail", "b_nilptr", "b_actfail"],
     "values": ["b_compound", "b_args", "b_float", "b_string"],
 }
@@ -209,10 +209,10 @@ P["C12"]["bounds"] += "; behavioural equivalence: every rule of 13 templates eva
 P["C12"]["outside"] = "rule sets outside the template family; readers that return short reads without being at the end"
 P["C12"]["assumptions"] = TIERC_ASSUME + TIERB_ASSUME
 
-P["C10"]["runs"] += [tierB("control", 3, 0, QT, require_reach=["tierB:self-retract-fired", "tierB:complete-fired"]), tierB("control", 3, 1, T, require_reach=["tierB:self-retract-fired", "tierB:complete-fired"])]
+P["C10"]["runs"] += [tierB("control", 3, 0, QT, require_reach=["tierB:self-retract-fired", "tierB:complete-fired"]), tierB("control", 2, 1, T, require_reach=["tierB:self-retract-fired", "tierB:complete-fired"])]
 P["C10"]["assumptions"] = TIERA_ASSUME + TIERB_ASSUME
 P["C10"]["bounds"] += "; Tier B: Retract (self / other / unknown) and Complete in the middle of real action lists (template b_retract) reached through FunctionCall -> GoValueNode.CallFunction -> reflect MethodByName/Call"
-P["C14"]["runs"] += [tierB("control", 3, 0, QT), tierB("control", 3, 1, T)]
+P["C14"]["runs"] += [tierB("control", 3, 0, QT), tierB("control", 2, 1, T)]
 P["C14"]["assumptions"] = TIERA_ASSUME + TIERB_ASSUME
 P["C14"]["bounds"] += "; Tier B: real failures chosen by the solver through the facts (index out of range, integer division by zero, panicking user method, nil pointer; a failing sub-expression shared with a healthy rule)"
 
